@@ -41,3 +41,10 @@ def custom(run, tier):
         run.absorb(summary)
         ok2, nc, nm, mism, raw = vlib.run_driver("c12", cases)
         run.oblige("once monitor (extracted all_same) accepts %d recorded reader histories" % nc, ok2 and nm == 0, "\n".join(mism) or raw)
+
+
+MANIFEST = {
+    "text": "PARTIAL proof. Coq theorems: non-interference of every caller write and API call with every observation of every object, for all operation sequences that avoid the ownership-transferring entry points (ownership-heap invariant: caller-reachable cells and object-owned cells are disjoint), with the ownership-transfer case as a proved positive control; the lazy encode/decode body runs at most once and all readers see its result for all schedules of any number of readers (interleaving LTS of the once-cell). Tied to the real API by an operation-sequence differential (every accessor/serialiser x provenance, every input/output slice mutated and everything re-observed) and concurrent readers with pointer-identity witnesses.",
+    "note": "PARTIAL: data-race freedom is a Go-memory-model fact the Gallina model cannot exhibit; the race-detector run (0 reports) is supporting evidence only. The model assigns ownership per the documented copying discipline; the differential on the real API, including the positive control, ties that assignment to the code.",
+    "technique": "Rocq/Coq proof (ownership-heap invariant; interleaving LTS of sync.Once) + operation-sequence differential incl. ownership-transfer positive control + race-detector run",
+}
